@@ -3,15 +3,20 @@
 use crate::common::*;
 use crate::sched::*;
 
-fn programs(max_len: usize, with_abort: bool, cap: usize) -> Vec<Vec<PCmd>> {
+/// Producer programs: every word of up to `max_len` letters over the alphabet, followed by a
+/// drop. With `with_wait` one letter is "flush, then wait until delivered" (two operations).
+fn programs(max_len: usize, with_abort: bool, with_wait: bool, cap: usize) -> Vec<Vec<PCmd>> {
     let mut al = vec![
-        PCmd::Write(vec![0x61]),
-        PCmd::Write((0..cap).map(|i| 0x30 + i as u8).collect()),
-        PCmd::Write((0..cap + 1).map(|i| 0x41 + i as u8).collect()),
-        PCmd::Flush,
+        vec![PCmd::Write(vec![0x61])],
+        vec![PCmd::Write((0..cap).map(|i| 0x30 + i as u8).collect())],
+        vec![PCmd::Write((0..cap + 1).map(|i| 0x41 + i as u8).collect())],
+        vec![PCmd::Flush],
     ];
     if with_abort {
-        al.push(PCmd::Abort);
+        al.push(vec![PCmd::Abort]);
+    }
+    if with_wait {
+        al.push(vec![PCmd::Flush, PCmd::Wait]);
     }
     let mut out: Vec<Vec<PCmd>> = vec![vec![]];
     let mut frontier: Vec<Vec<PCmd>> = vec![vec![]];
@@ -20,7 +25,7 @@ fn programs(max_len: usize, with_abort: bool, cap: usize) -> Vec<Vec<PCmd>> {
         for p in &frontier {
             for a in &al {
                 let mut q = p.clone();
-                q.push(a.clone());
+                q.extend(a.iter().cloned());
                 next.push(q);
             }
         }
@@ -88,7 +93,7 @@ pub fn run_suite_with(em: &mut Emit, thorough: bool, abort: bool, body_drop: boo
     let (shard_i, shard_k) = shard();
     let mut counter = 0usize;
     for cap in [2usize] {
-        for prod in programs(max_len, abort, cap) {
+        for prod in programs(max_len, abort, !body_drop, cap) {
             if abort && !prod.contains(&PCmd::Abort) && !body_drop {
                 continue;
             }
